@@ -1,6 +1,8 @@
 package chainsim
 
 import (
+	"verifsim/ref"
+	"math/big"
 	"fmt"
 	"sort"
 	"time"
@@ -419,7 +421,7 @@ func (a *TSSActor) byzSignature(e *Env, s tsstypes.Signing, sa tsstypes.SigningA
 	if err != nil {
 		return
 	}
-	kind := e.Ch.Intn("tss.byz.kind", 8)
+	kind := e.Ch.Intn("tss.byz.kind", 9)
 	signer := m.Acc
 	mid := am.MemberID
 	label := ""
@@ -491,6 +493,33 @@ func (a *TSSActor) byzSignature(e *Env, s tsstypes.Signing, sa tsstypes.SigningA
 		if err != nil {
 			return
 		}
+	case 8: // the assigned R_i is kept but the share is made with the negated nonce: only the x-coordinate of R_i matches
+		label = "byz_sig_negated_nonce"
+		g, err1 := m.Store.GetGroup(s.GroupPubKey)
+		privDE, err2 := m.Store.GetDE(tsstypes.DE{PubD: am.PubD, PubE: am.PubE})
+		if err1 != nil || err2 != nil {
+			return
+		}
+		k, err := tss.ComputeOwnPrivNonce(privDE.PrivD, privDE.PrivE, am.BindingFactor)
+		if err != nil {
+			return
+		}
+		neg := new(big.Int).Sub(ref.N, new(big.Int).SetBytes(k))
+		nk := make([]byte, 32)
+		neg.FillBytes(nk)
+		var mids []tss.MemberID
+		for _, x := range ams {
+			mids = append(mids, x.MemberID)
+		}
+		lag, err := tss.ComputeLagrangeCoefficient(g.MemberID, mids)
+		if err != nil {
+			return
+		}
+		sg, err := tss.SignSigning(s.GroupPubNonce, s.GroupPubKey, s.Message, lag, tss.Scalar(nk), g.PrivKey)
+		if err != nil {
+			return
+		}
+		sig = append(append([]byte{}, am.PubNonce...), sg[33:]...)
 	case 6: // lagrange of a different committee (drop one member / pretend other attempt)
 		label = "byz_sig_wrong_committee"
 		if len(ams) < 2 {
